@@ -145,15 +145,17 @@ def match_known(known: list[dict], prop: str, sig: str) -> dict | None:
 # minimisation
 # --------------------------------------------------------------------------------------
 class Shrinker:
-    def __init__(self, mod, seed: int, sig: str, budget: int = 300) -> None:
+    def __init__(self, mod, seed: int, sig: str, budget: int = 300, wall: float = 25.0) -> None:
         self.mod = mod
         self.seed = seed
         self.sig = sig
         self.budget = budget
         self.runs = 0
+        self.t_end = time.time() + wall
 
     def fails(self, plan: dict, decisions: dict) -> bool:
-        if self.runs >= self.budget:
+        if self.runs >= self.budget or time.time() > self.t_end:
+            self.budget = self.runs  # stop everything
             return False
         self.runs += 1
         try:
@@ -386,7 +388,10 @@ def drive(modname: str, tier: str, base_seed: int, jobs: int, runs_override: int
         decisions = res["made"]
         mode = "decisions"
         r2 = run_replay(mod, seed, plan, decisions, "decisions")
-        if sig in _sigs(r2):
+        if sig in _sigs(r2) and len(new_viol) >= 8:
+            digest = r2["digest"]
+            msg = v["msg"]
+        elif sig in _sigs(r2):
             sh = Shrinker(mod, seed, sig, budget=cfg.get("shrink_budget", 250))
             plan, decisions = sh.shrink(plan, decisions)
             r3 = run_replay(mod, seed, plan, decisions, "decisions")
